@@ -188,11 +188,16 @@ class Ctx:
 class Loop:
     """Inductive loop contract. inv(c, L): z3 Bool over the context and the
     namespace L of local variables at the loop head (L.i = hidden index of a
-    for-loop over a symbolic sequence). variant(c, L): Int term."""
+    for-loop over a symbolic sequence; L.phase = 'entry' (proved when the loop is
+    reached), 'head' (assumed at an arbitrary head) or 'after' (proved after one
+    pass from that head)). variant(c, L): Int term."""
 
     def __init__(self, inv, variant=None, havoc_fields=(), kinds=None, note=None,
-                 havoc_hook=None, early_exit=False):
+                 havoc_hook=None, early_exit=False, over=None):
         self.havoc_hook = havoc_hook
+        # over(c, seq, k, elem) -> (length claim, claim about the k-th element iterated): WHAT the
+        # for-loop iterates over, checked at an arbitrary index k (fresh constant) at loop entry
+        self.over = over
         # the per-iteration obligations speak about the passes that happen; that the loop is not
         # left early (break / return from the body) is an obligation of its own unless the
         # contract says leaving early is part of the function (and then says what that means
@@ -255,10 +260,20 @@ class Loop:
         idx_name = '__i%d' % ordinal
         if is_for:
             st.env[idx_name] = vint(0)
+        if is_for and self.over is not None:
+            if not seqv.extra.get('get'):
+                raise Unsupported(s, 'loop over a sequence the contract gives no element function for')
+            k = z3.Int('over.k!%d' % next(eng.counter))
+            probe = st.fork()
+            elem = seqv.extra['get'](eng, k, probe)
+            claim = self.over(eng.make_ctx(st), seqv, k, elem)
+            eng.oblige(st, 'loop%d.iterates-over' % ordinal, 'iterates-over',
+                       z3.And(claim[0], z3.Implies(z3.And(k >= 0, k < seqv.extra['len'],
+                                                          *probe.pc[len(st.pc):]), claim[1])), s)
         # 1. invariant at entry (a head marker first: an enclosing loop may have been through
         # this loop before on the same path, and 'events since the head' must not see that)
         st.trace.append(('loop-head', ordinal))
-        L = self.locals_ns(eng, st, {'i': z3.IntVal(0)} if is_for else None)
+        L = self.locals_ns(eng, st, dict({'i': z3.IntVal(0)} if is_for else {}, phase='entry'))
         eng.oblige(st, 'loop%d.inv-entry' % ordinal, 'inv-entry', self.inv(eng.make_ctx(st), L), s)
         # 2.-4. havoc, assume, one arbitrary iteration.  A loop-assigned local that is None at
         # entry and has no declared kind is havoc'd over {None} + the scalar kinds the body is
@@ -379,7 +394,7 @@ class Loop:
         iz = st.env[idx_name].z if is_for else None
         if is_for:
             st.pc.append(z3.And(iz >= 0, iz <= seqv.extra['len']))
-        L = self.locals_ns(eng, st, {'i': iz} if is_for else None)
+        L = self.locals_ns(eng, st, dict({'i': iz} if is_for else {}, phase='head'))
         st.pc.append(self.inv(eng.make_ctx(st), L))
         var0 = self.variant(eng.make_ctx(st), L) if self.variant else None
         # 4. test
@@ -417,9 +432,14 @@ class Loop:
                             st3 = bo[1]
                             if ends is not None:
                                 ends.append(st3)
-                            L3 = self.locals_ns(eng, st3, {'i': st3.env[idx_name].z} if is_for else None)
+                            L3 = self.locals_ns(eng, st3, dict({'i': st3.env[idx_name].z} if is_for else {}, phase='after'))
+                            # the invariant is asked AFTER a pass: the trace it sees ends with a marker,
+                            # so that "no event since the head" (a pass that did nothing) cannot be taken
+                            # for "at the head" (nothing to say yet)
+                            ctx3 = eng.make_ctx(st3)
+                            ctx3.trace = list(st3.trace) + [('pass-end', ordinal)]
                             eng.oblige(st3, 'loop%d.inv-preserved' % ordinal, 'inv-preserved',
-                                       self.inv(eng.make_ctx(st3), L3), s)
+                                       self.inv(ctx3, L3), s)
                             if self.variant:
                                 v1 = self.variant(eng.make_ctx(st3), L3)
                                 eng.oblige(st3, 'loop%d.variant' % ordinal, 'variant',
